@@ -551,6 +551,13 @@ func (x *Exec) ghostKey(owner *types.Named, g *GhostField) (key string, elem typ
 		key = x.registerField(owner, g.Name, "ghostmap", arrSort(ks, es), elem)
 	} else {
 		key = x.registerField(owner, g.Name, "", es, elem)
+		// ghost fields of objects that do not exist yet hold their zero value (they are initialised at allocation)
+		mark := "ghostzero:" + key
+		if _, done := x.ctx.funs[mark]; !done && x.alloc0 != "" {
+			x.ctx.funs[mark] = "axiom"
+			init := x.heap.fieldInit[key]
+			x.ctx.Assume(fmt.Sprintf("(forall ((r Int)) (! (=> (> r %s) (= (select %s r) %s)) :pattern ((select %s r))))", x.alloc0, init, x.ctx.zero(elem).S, init))
+		}
 	}
 	return
 }
